@@ -82,8 +82,9 @@ class C01(Monitor):
 
     def on_crash(self, w, op, crash):
         if op[0] == "put" and crash.where == "put":
+            from .engine_f import crash_site
             return [V("C01", "granted-put-succeeds", w, "put with a granted reservation raised %s" % crash,
-                      op="put", exc=type(crash.exc).__name__)]
+                      op="put", exc=type(crash.exc).__name__, site=crash_site(crash.exc)[0])]
         if crash.where in ("env.step",) and "exceeds capacity" in str(crash.exc):
             return [V("C01", "overflow-guard", w, str(crash), op=op[0])]
         return []
